@@ -509,6 +509,23 @@ Definition parser_ok (pth : path) : Prop :=
     sim (parse_keywords pth kws names first off ignore values kw0)
         (parse_ref kws names first off ignore values kw0).
 
+(* the same obligation for one shape of the initial **kwargs dict only: [some] = the wrapper passes a
+   fresh dict (the signature has a used **kwargs), otherwise NULL *)
+Definition parser_ok_sel (pth : path) (some : bool) : Prop :=
+  forall V (kws : list (key * V)) names first off ignore values kw0,
+    NoDup names -> all_str kws -> keys_nodup kws = true -> first <= length names ->
+    off + length names <= length values ->
+    (forall i, first <= i -> i < length names -> nth (off + i) values None = None) ->
+    kw0 = (if some then Some [] else None) ->
+    sim (parse_keywords pth kws names first off ignore values kw0)
+        (parse_ref kws names first off ignore values kw0).
+
+Lemma parser_ok_sel_of : forall pth some, parser_ok pth -> parser_ok_sel pth some.
+Proof.
+  intros pth some H V kws names first off ignore values kw0 A B C D E F G. apply H; auto.
+  destruct some; [right|left]; exact G.
+Qed.
+
 Lemma sim_refl_ref : forall V (kws : list (key * V)) names first off ignore values kwds2,
   NoDup names -> all_str kws -> keys_nodup kws = true ->
   (kwds2 = None \/ kwds2 = Some []) ->
@@ -781,7 +798,7 @@ Proof.
 Qed.
 
 Lemma generic_kw : forall V pth s (c : call V),
-  wfs s -> parser_ok pth -> all_str (c_kws c) -> keys_nodup (c_kws c) = true ->
+  wfs s -> parser_ok_sel pth (s_starstar s && s_kwused s) -> all_str (c_kws c) -> keys_nodup (c_kws c) = true ->
   (0 <? length (c_kws c)) = true ->
   erase s (bind_generic pth s c) = erase s (bind_py s c).
 Proof.
@@ -1074,7 +1091,7 @@ Proof.
   assert (EQ : s_poskw s = []) by (apply length_zero_iff_nil; lia).
   assert (EK : s_kwonly s = []) by (apply length_zero_iff_nil; lia).
   destruct (0 <? length (c_kws c)) eqn:NE.
-  - rewrite <- (generic_kw V PTuple s c W (parser_ok_tuple PTuple ltac:(discriminate)) AS KN NE).
+  - rewrite <- (generic_kw V PTuple s c W (parser_ok_sel_of _ _ (parser_ok_tuple PTuple ltac:(discriminate))) AS KN NE).
     unfold bind_metho, bind_generic. rewrite NE. unfold accept_kwd_args, argnames, kw_only_args, required, optional.
     rewrite EQ, EK, SS. reflexivity.
   - assert (E0 : c_kws c = []) by (destruct (c_kws c); [reflexivity|discriminate]).
@@ -1109,7 +1126,7 @@ Qed.
 (* ---------- main theorem ---------- *)
 Theorem bind_cy_py : forall V pth s (c : call V),
   wf_sig s = true -> wf_path pth s = true -> keys_nodup (c_kws c) = true -> nonstr_in (c_kws c) = false ->
-  (length (all_args s) <> 0 -> parser_ok pth) ->
+  (length (all_args s) <> 0 -> parser_ok_sel pth (s_starstar s && s_kwused s)) ->
   erase s (bind_cy pth s c) = erase s (bind_py s c).
 Proof.
   intros V pth s c WS WP KN NS PO. apply wf_sig_wfs in WS. apply nonstr_in_false in NS.
@@ -1121,9 +1138,9 @@ Proof.
    |apply generic_nokw; [assumption|destruct (c_kws c); [reflexivity|discriminate]]]).
 Qed.
 
-Theorem call_eq_param : forall V vc pth s (c : call V),
+Theorem call_eq_sel : forall V vc pth s (c : call V),
   wf_sig s = true -> wf_path pth s = true -> wf_entry vc pth = true -> keys_nodup (c_kws c) = true ->
-  (length (all_args s) <> 0 -> parser_ok pth) ->
+  (length (all_args s) <> 0 -> parser_ok_sel pth (s_starstar s && s_kwused s)) ->
   erase s (call_cy vc pth s c) = erase s (call_py s c).
 Proof.
   intros V vc pth s c WS WP WE KN PO. unfold call_cy, call_py.
@@ -1134,6 +1151,15 @@ Proof.
     + unfold bind_cy, bind_noargs. destruct (c_kws c); [discriminate|reflexivity].
     + unfold bind_cy, bind_metho. destruct (c_kws c); [discriminate|reflexivity].
   - rewrite andb_false_r. apply bind_cy_py; assumption.
+Qed.
+
+Theorem call_eq_param : forall V vc pth s (c : call V),
+  wf_sig s = true -> wf_path pth s = true -> wf_entry vc pth = true -> keys_nodup (c_kws c) = true ->
+  (length (all_args s) <> 0 -> parser_ok pth) ->
+  erase s (call_cy vc pth s c) = erase s (call_py s c).
+Proof.
+  intros V vc pth s c WS WP WE KN PO. apply call_eq_sel; auto.
+  intros L. apply parser_ok_sel_of, PO, L.
 Qed.
 
 (* every calling convention except a named-parameter wrapper entered with a kwds dict *)
